@@ -651,4 +651,14 @@ theorem compose_roundtrip (b0 : String × ColumnSeries) (rest : List (String × 
     have := foldB_ok n ((k0, cs0) :: rest) 0 [] hok hitems (by simpa using hkeys)
     simpa using this
 
+theorem shapes_of_names_types : ∀ (a b : List Column), a.map (·.name) = b.map (·.name) →
+    a.map (·.typ) = b.map (·.typ) → a.map toShape = b.map toShape
+  | [], [], _, _ => rfl
+  | [], _ :: _, h, _ => by simp at h
+  | _ :: _, [], h, _ => by simp at h
+  | x :: xs, y :: ys, h1, h2 => by
+    simp only [List.map_cons, List.cons.injEq] at h1 h2 ⊢
+    exact ⟨by simp [toShape, h1.1, h2.1], shapes_of_names_types xs ys h1.2 h2.2⟩
+
+
 end Mkts.Numpy
